@@ -167,6 +167,38 @@ static void refused_requests(Wd::sbx& sb, const char* tn)
   }
 }
 
+// copy_and_verify_range(count): the verifier must receive exactly the count elements the sandbox holds, taken from the
+// count sandbox-sized elements that were range-checked - at the interior and flush against the end of the region, where a
+// copy sized with the application's element would run off the region (address-sanitizer: the model's region is followed by
+// a poisoned zone)
+template<typename T>
+static void range_probe(Wd::sbx& sb, const char* tn, mon::Rng& rng)
+{
+  using G = ref::guest_t<Cfg, T>;
+  const uint64_t total = sb.get_total_memory();
+  for (int round = 0; round < mon::tier(4, 100); round++) {
+    for (uint64_t off : { uint64_t(8192), total - 4 * sizeof(G) }) {
+      T v[4];
+      for (auto& x : v) x = static_cast<T>(static_cast<G>(rng.interesting() & 0x7f));
+      auto p = Wd::template tptr<T>(sb, off);
+      for (int i = 0; i < 4; i++) p[i] = v[i];
+      T got[4] = {};
+      bool called = false;
+      mon::ctx("copy_and_verify_range/%s at offset %llu | element semantics", tn, (unsigned long long)off);
+      bool ab = mon::aborts([&] { p.copy_and_verify_range([&](std::unique_ptr<T[]> u) { called = true; if (u) for (int i = 0; i < 4; i++) got[i] = u[i]; return 0; }, 4); });
+      mon::evals();
+      if (ab || !called) { report("copy_and_verify_range", tn, "legal-request-failed", Cfg::name); continue; }
+      bool same = true;
+      for (int i = 0; i < 4; i++) same = same && got[i] == v[i];
+      if (!same)
+        report("copy_and_verify_range", tn, "elements-not-those-held-under-this-abi",
+               mon::fmt("%s (guest %s is %zu bytes, application %zu): the sandbox holds {%lld %lld %lld %lld}, the verifier received {%lld %lld %lld %lld}", Cfg::name, tn, sizeof(G), sizeof(T),
+                        (long long)v[0], (long long)v[1], (long long)v[2], (long long)v[3], (long long)got[0], (long long)got[1], (long long)got[2], (long long)got[3]));
+      else n_ok++;
+    }
+  }
+}
+
 int main(int argc, char** argv)
 {
   mon::init("C10", argc, argv);
@@ -180,6 +212,13 @@ int main(int argc, char** argv)
   probe<char16_t>(sb, "char16_t", rng);
   probe<float>(sb, "float", rng);
   probe<double>(sb, "double", rng);
+  range_probe<char>(sb, "char", rng);
+  range_probe<short>(sb, "short", rng);
+  range_probe<char16_t>(sb, "char16_t", rng);
+  range_probe<char32_t>(sb, "char32_t", rng);
+  range_probe<wchar_t>(sb, "wchar_t", rng);
+  range_probe<long>(sb, "long", rng);
+  range_probe<double>(sb, "double", rng);
   refused_requests<short>(sb, "short");
   refused_requests<char16_t>(sb, "char16_t");
   usp_probe<Pair>(sb, "struct{short,short}", sizeof(tainted_volatile<Pair, S>) == 2 * sizeof(ref::guest_t<Cfg, short>) ? 2 * sizeof(ref::guest_t<Cfg, short>) : 0, rng);
